@@ -31,7 +31,7 @@ func (c *CRLRevocationChecker) IsRevoked(clientCertificate *x509.Certificate, ve
 	var locations *core.CRLLocations
 
 	if len(clientCertificate.CRLDistributionPoints) > 0 {
-		chains := core.NewCertificateChains(verifiedChains, c.crlConfig.TrustedSignatureCerts)
+		chains := core.NewCertificateChains(withoutEndEntity(verifiedChains), c.crlConfig.TrustedSignatureCerts)
 		locations = &core.CRLLocations{CRLDistributionPoints: clientCertificate.CRLDistributionPoints}
 		added, err := c.crlRepository.AddCRL(locations, chains)
 		if err != nil {
@@ -46,6 +46,20 @@ func (c *CRLRevocationChecker) IsRevoked(clientCertificate *x509.Certificate, ve
 
 	revoked, err := c.crlRepository.IsRevoked(clientCertificate, locations)
 	return revoked, err
+}
+
+// withoutEndEntity removes the end entity certificate from the verified chains.
+// Only the CA certificates above the client certificate are entitled to sign a CRL for it.
+func withoutEndEntity(verifiedChains [][]*x509.Certificate) [][]*x509.Certificate {
+	issuerChains := make([][]*x509.Certificate, 0, len(verifiedChains))
+	for _, verifiedChain := range verifiedChains {
+		if len(verifiedChain) > 0 && verifiedChain[0].IsCA == false {
+			issuerChains = append(issuerChains, verifiedChain[1:])
+		} else {
+			issuerChains = append(issuerChains, verifiedChain)
+		}
+	}
+	return issuerChains
 }
 
 func (c *CRLRevocationChecker) Provision(crlConfig *config.CRLConfig, logger *zap.Logger) error {
